@@ -4,6 +4,7 @@ package main
 
 import (
 	"fmt"
+	"regexp"
 	"go/constant"
 	"go/types"
 	"sort"
@@ -189,8 +190,11 @@ func qualifier(p *types.Package) string {
 	return p.Name()
 }
 
+var anyWord = regexp.MustCompile(`\bany\b`)
+
 func typeKey(t types.Type) string {
-	return sanitize(types.TypeString(t, qualifier))
+	// "any" is an alias of interface{}: one heap for both spellings
+	return sanitize(anyWord.ReplaceAllString(types.TypeString(t, qualifier), "interface{}"))
 }
 
 func structName(t types.Type) string {
